@@ -3,6 +3,7 @@
 Monitor: graph model (oracles/flowgraph.py) evaluated on every observed call of
 grid.accumulate; argument-immutability of the two input grids."""
 import itertools
+import math
 
 import numpy as np
 
@@ -31,7 +32,8 @@ OBLIGATIONS = {"acyclic": 300, "cyclic": 100, "field:default": 100,
                "field:negatives": 100, "field:zeros": 50, "field:reachable-nodata": 50, "has-upstream": 200,
                "terminal-cell": 200, "reduced-max": 20, "random-forest": 5,
                "inputs-unaltered": 300, "dtype-variant": 100, "layout-variant": 50,
-               "field:wide-mantissa": 50, "field:tiny": 50, "bounded-grid": 100}
+               "field:wide-mantissa": 50, "field:tiny": 50, "bounded-grid": 100,
+               "flowdir-nodata:non-default": 50, "field-nodata:nan": 20}
 
 
 def mods():
@@ -57,7 +59,7 @@ def _layout(a, layout):
 
 
 def make_grids(codes, field, nodata, fd_dtype="i8", ta_dtype="f8", layout="C",
-               bounded=False):
+               bounded=False, fd_nodata=None):
     g = mods()
     codes = np.asarray(codes, dtype=np.int64)
     nr, nc = codes.shape
@@ -68,7 +70,10 @@ def make_grids(codes, field, nodata, fd_dtype="i8", ta_dtype="f8", layout="C",
         fdt = np.int64
     if fd_dtype == "f8" and np.abs(codes).max() > 2 ** 53:
         fdt = np.int64
-    fd = g.Grid("fd", nc, nr, dtype=fdt)
+    if fd_nodata is not None and fdt is np.float64:
+        fd = g.Grid("fd", nc, nr, dtype=fdt, nodata=fd_nodata)
+    else:
+        fd = g.Grid("fd", nc, nr, dtype=fdt)
     fd.data = _layout(codes, layout)
     ta = None
     if field is not None:
@@ -79,6 +84,9 @@ def make_grids(codes, field, nodata, fd_dtype="i8", ta_dtype="f8", layout="C",
         if ta_dtype == "f4" and (not np.all(f.astype(np.float32) == f) or
                                  np.abs(f).sum() >= 2 ** 24):
             tdt = np.float64          # values or their sums need more than 24 bits
+        if isinstance(nodata, float) and math.isnan(nodata) and \
+                np.dtype(tdt).kind in "iu":
+            tdt = np.float64          # an integer grid cannot hold a NaN marker
         ta = g.Grid("ta", nc, nr, dtype=tdt, nodata=nodata)
         ta.data = _layout(f, layout)
         if bounded and hasattr(type(ta), "mindata"):
@@ -123,7 +131,12 @@ def run_case(ctx, case):
     ctx.evaluated()
     fd, ta = make_grids(codes, field, nodata, case.get("fd_dtype", "i8"),
                         case.get("ta_dtype", "f8"), case.get("layout", "C"),
-                        bool(case.get("bounded", False)))
+                        bool(case.get("bounded", False)), case.get("fd_nodata"))
+    if ta is None:
+        # the default unit field inherits the no-data value of the flow grid given
+        nodata = float(fd.nodata)
+        if nodata != 0.0:
+            ctx.tag("flowdir-nodata:non-default")
     if case.get("bounded"):
         ctx.tag("bounded-grid")
     if case.get("layout", "C") != "C" and min(codes.shape) > 1:
@@ -132,6 +145,8 @@ def run_case(ctx, case):
         ctx.tag("dtype-variant")
     if ta is not None:
         nodata = float(ta.nodata)        # as stored in the grid's own type
+        if math.isnan(nodata):
+            ctx.tag("field-nodata:nan")
     fd_before = fd.data.copy()
     ta_before = None if ta is None else ta.data.copy()
     if cyc:
@@ -173,7 +188,7 @@ def run_case(ctx, case):
     for c in range(model.n):
         if model.down[c] < 0:
             ctx.tag("terminal-cell")
-            okc = a[c] == nodata
+            okc = a[c] == nodata or (math.isnan(nodata) and math.isnan(a[c]))
             exp = nodata
         else:
             exp = float(sum(f[u] for u in ups[c]))
@@ -228,6 +243,11 @@ def run(ctx):
                         "ta_dtype": ["f8", "f4", "i8"][(idx // 4) % 3],
                         "layout": ["C", "F", "C", "T", "C", "S"][(idx // 3) % 6],
                         "bounded": (idx // 5) % 4 == 0}
+                if nm == "default" and case["fd_dtype"] == "f8":
+                    case["fd_nodata"] = [float("nan"), -0.5, float("inf"), -9999.0,
+                                         float("-inf")][(idx // 4) % 5]
+                if nm == "positive" and (idx // 7) % 3 == 0:
+                    case["nodata"] = float("nan")
                 run_case(ctx, case)
                 if idx % 7919 == 0 and nm == "negatives":
                     ctx.sample(case)
